@@ -161,15 +161,21 @@ Definition omax (x y : T) : T := if x <? y then y else x.   (* if (p > max) max 
 Definition extend (b : vec * vec) (p : vec) : vec * vec :=
   let '((x0,y0,z0),(x1,y1,z1)) := b in let '(x,y,z) := p in
   ((omin x0 x, omin y0 y, omin z0 z), (omax x1 x, omax y1 y, omax z1 z)).
-(* as coded: alpha != 90. || beta == 90. || gamma == 90. *)
-Definition box_oblique (c : cell) : bool := negb (r90a c) || r90b c || r90g c.
-Definition orthogonalize_box (c : cell) (fmin fmax : vec) : vec * vec :=
+(* the angle test of orthogonalize_box.
+   pinned snapshot:  alpha != 90. || beta == 90. || gamma == 90.   (box_oblique_pinned)
+   repaired:         alpha != 90. || beta != 90. || gamma != 90.   (box_oblique) *)
+Definition box_oblique_pinned (c : cell) : bool := negb (r90a c) || r90b c || r90g c.
+Definition box_oblique (c : cell) : bool := negb (r90a c) || negb (r90b c) || negb (r90g c).
+Definition orthogonalize_box_with (oblique : bool) (c : cell) (fmin fmax : vec) : vec * vec :=
   let '(x0,y0,z0) := fmin in let '(x1,y1,z1) := fmax in
   let r := (orthogonalize c fmin, orthogonalize c fmax) in
-  if box_oblique c then
+  if oblique then
     fold_left extend
       (map (orthogonalize c) [(x0,y0,z1); (x0,y1,z1); (x0,y1,z0); (x1,y1,z0); (x1,y0,z0); (x1,y0,z1)]) r
   else r.
+Definition orthogonalize_box_pinned (c : cell) := orthogonalize_box_with (box_oblique_pinned c) c.
+(* the code as it is now (after the repair) *)
+Definition orthogonalize_box (c : cell) := orthogonalize_box_with (box_oblique c) c.
 Definition corners (fmin fmax : vec) : list vec :=
   let '(x0,y0,z0) := fmin in let '(x1,y1,z1) := fmax in
   [(x0,y0,z0); (x0,y0,z1); (x0,y1,z0); (x0,y1,z1); (x1,y0,z0); (x1,y0,z1); (x1,y1,z0); (x1,y1,z1)].
@@ -177,8 +183,12 @@ Definition oleb (x y : T) : bool := negb (y <? x).
 Definition in_box (b : vec * vec) (p : vec) : bool :=
   let '((x0,y0,z0),(x1,y1,z1)) := b in let '(x,y,z) := p in
   oleb x0 x && oleb x x1 && oleb y0 y && oleb y y1 && oleb z0 z && oleb z z1.
+Definition box_has (b : vec * vec) (c : cell) (fmin fmax : vec) : bool :=
+  forallb (fun f => in_box b (orthogonalize c f)) (corners fmin fmax).
 Definition box_has_corners (c : cell) (fmin fmax : vec) : bool :=
-  forallb (fun f => in_box (orthogonalize_box c fmin fmax) (orthogonalize c f)) (corners fmin fmax).
+  box_has (orthogonalize_box c fmin fmax) c fmin fmax.
+Definition box_has_corners_pinned (c : cell) (fmin fmax : vec) : bool :=
+  box_has (orthogonalize_box_pinned c fmin fmax) c fmin fmax.
 
 (* Fractional::wrap_to_zero, distance_sq(Fractional, Fractional), search_pbc_images (crystal) *)
 Definition vround (v : vec) : vec := let '(x,y,z) := v in (ornd O x, ornd O y, ornd O z).
